@@ -130,8 +130,27 @@ def judgeBlockS (endT : Nat) (body : List String) : List String :=
   | none => ["ok"]
   | some sig => [s!"viol {sig}"]
 
+/-- `judge <endT> cfg <window|none>` / `judges <endT> cfg <window|none>`: the transcript of a run that was not
+    rejected, preceded by the declared `link` lines: first the accepted-configuration clause, then the judge -/
+def judgeCfg (stateful : Bool) (endT : Nat) (window : Option Nat) (body : List String) : List String :=
+  let links := (body.map toks).filterMap fun ts =>
+    match ts with
+    | ["link", _, _, l] => some (wEffOf (natD l))
+    | _ => none
+  let rest := body.filter fun l => (toks l).head? != some "link"
+  let wEff := match window with
+    | some w => wEffOf w
+    | none => links.foldl min (links.headD 0)
+  match judgeAccepted wEff links with
+  | some sig => [s!"viol {sig}"]
+  | none => if stateful then judgeBlockS endT rest else judgeBlock endT rest
+
 def handle (hdr : List String) (body : List String) : List String :=
   match hdr with
+  | ["judge", endT, "cfg", window] =>
+    judgeCfg false (optT endT) (if window == "none" then none else some (natD window)) body
+  | ["judges", endT, "cfg", window] =>
+    judgeCfg true (optT endT) (if window == "none" then none else some (natD window)) body
   | ["runs", variant, nparts, window, endT] =>
     runModelS 0 (variant != "current") (natD nparts) (if window == "none" then none else some (natD window))
       (optT endT) body
